@@ -341,7 +341,7 @@ def make_device(H, nholes, probes=None):
     film = _box(H, "film", 0.0, 0.0, 10.0, 6.0)
     holes = [_box(H, f"hole{k}", 1.0 + 4 * k, 1.0, 3.0 + 4 * k, 3.0) for k in range(nholes)]
     terms = [_box(H, "source", -0.5, 1.0, 0.5, 5.0), _box(H, "drain", 9.5, 1.0, 10.5, 5.0)]
-    dev = tdgl.Device("dev", layer=layer, film=film, holes=holes, terminals=terms, probe_points=probes)
+    dev = tdgl.Device("dev", layer=layer, film=film, holes=holes, terminals=terms, probe_points=probes, length_units="nm")
     return dev, film, holes, terms
 
 
@@ -375,6 +375,7 @@ def body_device(H, case):
         H.prove(f"copy: polygon {a.name} is a different object with its own array", a is not b and not shares_memory(a.points, b.points))
         H.prove(f"copy: polygon {a.name} has the same name and vertices", a.name == b.name and unchanged(H, b, s))
     H.prove("copy: the layer is a different object with the same parameters", cp.layer is not dev.layer and cp.layer == dev.layer)
+    H.prove("copy: same name and length units", cp.name == dev.name and cp.length_units == dev.length_units)
     # mutating the copy leaves the original alone
     cp.film.translate(1.0, 2.0, inplace=True)
     cp.holes and cp.holes[0].scale(2.0, 2.0, inplace=True)
@@ -406,7 +407,7 @@ def body_devtf(H, case):
         new = dev.scale(xfact=fx, yfact=fy, origin=(ox, oy))
         f = lambda x, y: (ox + fx * (x - ox), oy + fy * (y - oy))
         det_pos = sx > 0
-    H.prove("a transformed device is a new device", new is not dev)
+    H.prove("a transformed device is a new device with the same length units", new is not dev and new.length_units == dev.length_units)
     for a, sn in zip(dev.polygons, snaps):
         H.prove(f"{a.name} of the original device is unchanged", unchanged(H, a, sn))
     for a, b, sn in zip(dev.polygons, new.polygons, snaps):
